@@ -137,7 +137,11 @@ class Sched:
                 self.cur = None
                 self.main_sem.release()
                 me.sem.acquire()
-                raise Kill()
+                if self.dead:
+                    raise Kill()
+                me.spins = 0  # the driver resumed the system: carry on polling
+                self.cur = me
+                return
         if not cands:
             nxt = None
         else:
